@@ -99,7 +99,7 @@ def validate(traces, tmpdir=None):
         os.makedirs(os.path.join(tmp, 'w'))
         out, st = tlc.run_tlc('TraceLifecycle', 'TraceLifecycle.cfg', env={'TRACE_FILE': fn}, workers=1, tmp=os.path.join(tmp, 'w'))
         verdicts = {}
-        for m in re.finditer(r'<<"VERDICT", "([^"]+)", (\{.*?\})>>', out.replace('\n', ' ')):
+        for m in re.finditer(r'<<\s*"VERDICT",\s*"([^"]+)",\s*(\{.*?\})\s*>>', re.sub(r'\s+', ' ', out)):
             verdicts[m.group(1)] = m.group(2)
         ok = re.search(r'<<"validated", (\d+), "of", (\d+)>>', out)
         st['validated'] = int(ok.group(1)) if ok else 0
